@@ -111,7 +111,7 @@ func initEndlessClosedRange() {
 		c,
 		"end",
 		func(vm *Thread, args []value.Value) (value.Value, value.Value) {
-			return value.Undefined, value.Undefined
+			return value.Nil, value.Undefined
 		},
 	)
 }
